@@ -301,7 +301,11 @@ def spec_reserved(name):
 
 
 FOREIGN = ["notes.ts", "types.tsx", "mytypes.ts", "README.md", ".write_test", ".typecache.bak", "typesXts", "index.tsx",
-           "generated", "Types.ts", "commands.ts.orig", "events.js", "x-generated.txt", ".gitkeep"]
+           "generated", "Types.ts", "commands.ts.orig", "events.js", "x-generated.txt", ".gitkeep",
+           # names a write-to-temp-then-rename, backup or editor scheme would use next to the reserved ones
+           "types.tmp", "commands.tmp", "events.tmp", "index.tmp", "schemas.tmp", "types.ts.tmp", "commands.ts.tmp", "index.ts.tmp",
+           "types.ts~", "types.ts.bak", "types.bak", ".types.ts.swp", "types.ts.new", "commands.new", ".typecache.tmp", "types.test.ts",
+           "commands.mock.ts", "index.spec.ts", "index.mts", "types.cts", "dependency-graph.tmp", "tmp"]
 RESERVED_DECOYS = ["models.ts", "bindings.d.ts", "generated_old.ts", "x_generated.md", "schemas.ts"]
 
 
